@@ -43,13 +43,15 @@ class Dev:
     """Deviation switches for one evaluation of the model."""
 
     def __init__(self, waiver=False, fmt_unknown=True, curated=None, formats=("uuid", "date-time"),
-                 nested_bool_conflation=False):
+                 nested_bool_conflation=False, custom=None):
         self.waiver = waiver
         # verdict for strings whose membership in a registered format is not
         # unambiguous between the RFC and the registered checker
         self.fmt_unknown = fmt_unknown
         self.curated = curated or {}
         self.formats = set(formats)
+        # formats the harness registered itself: name -> predicate (exactly known)
+        self.custom = custom or {}
         self.nested_bool_conflation = nested_bool_conflation
         self.used_waiver = False
         self.used_fmt_unknown = False
@@ -169,7 +171,10 @@ def valid(schema, value, root=None, dev=None, depth=0):
         if "pattern" in schema and not re.search(schema["pattern"], value):
             return False
         fmt = schema.get("format")
-        if isinstance(fmt, str) and fmt in dev.formats:
+        if isinstance(fmt, str) and fmt in dev.custom:
+            if not dev.custom[fmt](value):
+                return False
+        elif isinstance(fmt, str) and fmt in dev.formats:
             known = dev.curated.get(fmt, {}).get(value)
             if known is None:
                 if fmt == "uuid" and UUID_RE.match(value):
